@@ -60,9 +60,9 @@ CHECKS: dict[str, tuple[str, str, str, str, str]] = {
         "broadcasting, CPython slice arithmetic): three voices, spec != NumPy is a machinery "
         "failure. Exhaustive over the stated product in the thorough tier.",
         "Trusted: TLC, the installed NumPy 2.x as the reference. pytato rejecting more than "
-        "NumPy (documented restrictions such as negative axes) constrains nothing. Multi-call "
-        "programs (every intermediate node) are covered by C01/C14's per-node comparison, not "
-        "here.",
+        "NumPy (documented restrictions such as negative axes) constrains nothing. Every "
+        "intermediate node: each call of seeded random multi-call programs is judged the same "
+        "way (calls whose operands already diverge upstream are not compared again).",
         "TLA+ inference rules (PtInfer) evaluated by TLC on recorded (pytato, NumPy) call "
         "results; exhaustive bounded enumeration of the call product",
         "DESIGN.md section 4 C03"),
